@@ -6,6 +6,8 @@ driver for the exchange model (engine `exchange`).  Time in ticks of 1/1024 s.
   run <asis|repaired> <op> <op> …   → per call `<queued ids, comma separated, or -> <ok|ERR Name> d=<0|1> f=<0|1>`,
                                        calls separated by ` | `
 
+  runf <asis|repaired> <op> …       → the same with the Float (binary64) instantiation of the definitions: times are
+                                       16 hex digits (bit pattern of the float), class defaults 2.0/0.5 s, Exchangent 0.5/0.1 s
 ops:  `C<k>:<timeout>:<redo>:<tx>:<rx>`  create, k = e (Exchange) x (Exchanger) n (Exchangent), `N` = not given
       `S<arg>` start (`SN` = no argument)   `A<dt>` advance the stamper   `P` process
       `T<tx>` send (`TN` = send())   `Y<tx>` transmit   `M<tx>` message   `R<rx>` receive   `F` finish   `X` fail   `U` run
@@ -63,6 +65,49 @@ def runShow (v : Variant) : World → List Op → List String
     let (w', o) := Ioflo.Exchange.step v w op
     showRec w' o :: runShow v w' ops
 
+/-! float form: times travel as 16 hex digits = the IEEE binary64 bit pattern -/
+
+def hexNat? (s : String) : Option Nat :=
+  if s.isEmpty then none else s.toList.foldlM (fun acc c => (hexDigit? c).map (fun d => acc * 16 + d)) 0
+
+def float? (s : String) : Option Float :=
+  if s.length != 16 then none else (hexNat? s).map (fun n => Float.ofBits (UInt64.ofNat n))
+
+def optFloat? (s : String) : Option (Option Float) :=
+  if s == "N" then some none else (float? s).map some
+
+def gop? (w : String) : Option (GOp Float) :=
+  match w.toList with
+  | ['P'] => some .process
+  | ['F'] => some .finish
+  | ['X'] => some .fail
+  | ['U'] => some .run
+  | 'C' :: k :: ':' :: r =>
+    match (String.ofList r).splitOn ":" with
+    | [t, rd, tx, rx] => do
+        let k ← kind? k; let t ← optFloat? t; let rd ← optFloat? rd; let tx ← optNat? tx; let rx ← optNat? rx
+        pure (.create k t rd tx rx)
+    | _ => none
+  | 'S' :: r => (optNat? (String.ofList r)).map .start
+  | 'A' :: r => (float? (String.ofList r)).map .advance
+  | 'T' :: r => (optNat? (String.ofList r)).map (.send .send)
+  | 'Y' :: r => (optNat? (String.ofList r)).map (.send .transmit)
+  | 'M' :: r => (optNat? (String.ofList r)).map (.send .message)
+  | 'R' :: r => (String.ofList r).toNat?.map .receive
+  | _ => none
+
+def showGRec (w : GWorld Float) (o : Out) : String :=
+  (if o.queued.isEmpty then "-" else ",".intercalate (o.queued.map toString)) ++ " " ++ showErr o.err ++
+  (match w.ex with
+   | none => " d=- f=-"
+   | some e => " d=" ++ b01 e.done ++ " f=" ++ b01 e.failed)
+
+def grunShow (v : Variant) : GWorld Float → List (GOp Float) → List String
+  | _, [] => []
+  | w, op :: ops =>
+    let (w', o) := gstep defsFloat v w op
+    showGRec w' o :: grunShow v w' ops
+
 def variant? (s : String) : Option Variant :=
   if s == "asis" then some .asIs else if s == "repaired" then some .repaired else none
 
@@ -72,6 +117,10 @@ def reply (ws : List String) : Option String :=
       let v ← variant? v
       let ops ← ops.mapM op?
       pure (if ops.isEmpty then "-" else " | ".intercalate (runShow v World.init ops))
+  | "runf" :: v :: ops => do
+      let v ← variant? v
+      let ops ← ops.mapM gop?
+      pure (if ops.isEmpty then "-" else " | ".intercalate (grunShow v ⟨0.0, none, []⟩ ops))
   | _ => none
 
 def step (_ : Unit) (line : String) : Unit × String :=
